@@ -31,6 +31,46 @@ pub struct CatalogSpec {
     pub short_rw_pct: u8,
     pub eintr_pct: u8,
     pub fault_seed: u64,
+    /// Some(seed): contigs are registered in an interleaved order - a sample is resumed after
+    /// contigs of other samples (A, B, A, A), as when a later input file carries more contigs of
+    /// an earlier sample. Per-sample contig order and the first-seen order of samples are kept.
+    #[serde(default)]
+    pub interleave_seed: Option<u64>,
+}
+
+/// Registration order of (sample index, contig index).
+pub fn registration_order(spec: &CatalogSpec) -> Vec<(usize, usize)> {
+    let mut order = Vec::new();
+    let Some(seed) = spec.interleave_seed else {
+        for (si, (_, contigs)) in spec.samples.iter().enumerate() {
+            for ci in 0..contigs.len() {
+                order.push((si, ci));
+            }
+        }
+        return order;
+    };
+    let mut r = Rng::new(seed);
+    let n = spec.samples.len();
+    let mut next_contig = vec![0usize; n];
+    let mut started = 0usize; // samples 0..started have been seen
+    let mut cur: Option<usize> = None;
+    let total: usize = spec.samples.iter().map(|s| s.1.len()).sum();
+    while order.len() < total {
+        let open: Vec<usize> = (0..started).filter(|&i| next_contig[i] < spec.samples[i].1.len()).collect();
+        let choice = match (cur, r.below(10)) {
+            (Some(c), 0..=4) if next_contig[c] < spec.samples[c].1.len() => c,
+            (_, 5..=7) if !open.is_empty() => open[r.below(open.len() as u64) as usize],
+            _ if started < n => {
+                started += 1;
+                started - 1
+            }
+            _ => open[r.below(open.len() as u64) as usize],
+        };
+        order.push((choice, next_contig[choice]));
+        next_contig[choice] += 1;
+        cur = Some(choice);
+    }
+    order
 }
 
 fn field(r: &mut Rng) -> String {
@@ -172,6 +212,11 @@ pub fn generate(run_seed: u64) -> CatalogSpec {
         short_rw_pct: if faulty { *s.fault.pick(&[10u8, 50]) } else { 0 },
         eintr_pct: if faulty { *s.fault.pick(&[0u8, 10]) } else { 0 },
         fault_seed: s.fault.next(),
+        // own stream: the other dimensions of existing run indices are unchanged
+        interleave_seed: {
+            let mut r = Rng::new(run_seed ^ 0x1EAF);
+            if r.pct(35) { Some(r.next()) } else { None }
+        },
     }
 }
 
@@ -210,11 +255,10 @@ pub fn execute(spec: &CatalogSpec) -> CatalogRun {
         coll.prepare_for_compression(&mut a).map_err(|e| io("prepare_for_compression", e))?;
         let mut nseg = 0u64;
         let mut nnames = 0u64;
-        for (sname, contigs) in &spec.samples {
-            for (cname, _) in contigs {
-                coll.register_sample_contig(sname, cname).map_err(|e| io("register_sample_contig", e))?;
-                nnames += 1;
-            }
+        for (si, ci) in registration_order(&spec) {
+            let (sname, contigs) = &spec.samples[si];
+            coll.register_sample_contig(sname, &contigs[ci].0).map_err(|e| io("register_sample_contig", e))?;
+            nnames += 1;
         }
         // segment placements arrive in a generated order (workers register in group order)
         let mut places: Vec<(usize, usize, usize)> = Vec::new();
